@@ -530,6 +530,9 @@ class Gen:
             self.block(depth + 2, {"func": True, "loop": False, "class": False, "fin": False}, self.i(1, 2))
 
     def module(self):
+        future = not self.py2 and self.v >= (3, 7) and self.chance(8)
+        if future:
+            self.emit(0, "from __future__ import annotations")
         if self.exec_safe:
             # bind every name programs use, so execution mostly proceeds
             self.emit(0, "a = 1; b = 2; c = [1, 2, 3]; d = {'k': 1}; e = 'txt'; x = 3; y = 4.5; z = (1, 2)")
@@ -540,8 +543,6 @@ class Gen:
             self.emit(0, "A = B = Node = Base")
         if self.chance(4):
             self.emit(0, '"""module doc"""')
-        if not self.py2 and self.v >= (3, 7) and self.chance(8):
-            self.emit(0, "from __future__ import annotations")
         self.block(0, {"func": False, "loop": False, "fin": False}, self.i(1, self.size + 2))
         return "\n".join(self.lines) + "\n"
 
